@@ -239,15 +239,22 @@ PROPS["C11"] = dict(
 _TLS_ASSUME = ["simulated TLS handshake = the assumed OpenSSL contract (fails iff verify_mode != CERT_NONE and the chain is untrusted, or check_hostname is on and the server name is not among the certificate names); real handshakes are outside this family",
                "ssl_wrap_socket is the only function replaced; context creation, flag handling, hostname/fingerprint assertions, tunnel set-up and request writing are the real code on an in-memory socket"]
 PROPS["C07"] = dict(
-    contracts=["ssl_match_hostname"], bounded=["c07", "c08"], level="other", trusted_base=COMMON_TRUSTED, assumptions=_TLS_ASSUME,
-    not_decided=["pyOpenSSL backend, OPTIONAL cert_reqs, ca_certs loading, real certificates: not covered", "tunnelled connections appear in the C09 table (proxy verification failure => nothing sent)",
-                 "_ssl_wrap_socket_and_match_hostname is not yet under the VC generator (finite lattice designed in DESIGN section 5 C07): decided by the bounded lattice only; match_hostname's dispatch is proved (C08 obligations reused)"],
-    explanation="(1) PROVED: match_hostname's dispatch (shared with C08). (2) BOUNDED, complete over the finite lattice cert_reqs x assert_hostname x assert_fingerprint x ssl_context flavour x peer trust x certificate names (720 points): through the real "
+    contracts=["stdlib", "ssl_match_hostname", "tls_wrap"], bounded=["c07", "c08"], level="other", trusted_base=COMMON_TRUSTED,
+    assumptions=_TLS_ASSUME + ["deductive part: ssl_wrap_socket (THE HANDSHAKE), getpeercert, assert_fingerprint, _match_hostname, create_urllib3_context, resolve_cert_reqs, _connect_tls_proxy, _tunnel, _new_conn, the HTTP/2 probe and warnings.warn "
+                               "are ASSUMED contracts over ghost oracles of the peer (chain_ok, fp_ok, name_ok(name)); SSLContext.verify_mode / check_hostname are modelled as plain fields (the real setters only add failures)",
+                               "HTTPSConnection.connect is verified for connections without a _connect_callback; is_verified / proxy_is_verified are read as instance fields"],
+    not_decided=["real certificates / real OpenSSL: everything about the handshake is the assumed contract; ca_certs loading is part of what 'configured CAs' means for the oracle chain_ok",
+                 "tunnelled connections appear in the C09 table (proxy verification failure => nothing sent); _connect_tls_proxy (TLS to the proxy itself) is used at an assumed contract here",
+                 "create_urllib3_context's own body (verify_mode / check_hostname defaults) is assumed as its last block states, not verified"],
+    explanation="(0) PROVED for every setting, both TLS backends (IS_PYOPENSSL arbitrary) and every peer (ghost oracles), over the real _ssl_wrap_socket_and_match_hostname / HTTPSConnection.connect / HTTPSConnectionPool._validate_conn: the socket is handed back for the request only if "
+                "a pinned fingerprint matched, or else (unless CERT_NONE) the chain validated and (unless assert_hostname is False) the certificate matched assert_hostname or the name given to the handshake; that name is the server_hostname override, else the tunnel target, else the host, "
+                "without trailing dots (bare IP form for bracketed / zoned literals); the connection's cert_reqs / assert_hostname / assert_fingerprint / ssl_context / CA settings reach the decision unchanged; a failure after the handshake closes the socket; is_verified is True only with "
+                "CERT_REQUIRED or a pin and never through a forwarding proxy; an unverified connection always triggers InsecureRequestWarning. (1) PROVED: match_hostname's dispatch (shared with C08). (2) BOUNDED, complete over the finite lattice cert_reqs x assert_hostname x assert_fingerprint x ssl_context flavour x peer trust x certificate names (720 points): through the real "
                 "HTTPSConnectionPool / HTTPSConnection / _ssl_wrap_socket_and_match_hostname with a simulated handshake, a request is written only if the peer passes what the settings demand (pin equality; else chain when required and a name match unless "
                 "assert_hostname is False), failures surface as SSLError, InsecureRequestWarning iff unverified. The name matcher's bounded contract (C08) is run as part of this check.",
-    level_text="Bounded complete case analysis of the verification lattice through the real code with a simulated handshake (the assumed OpenSSL contract) + the match_hostname dispatch proof; not a deductive proof of the lattice.",
+    level_text="Deductive proof of the verification decision (which checks a peer must pass, what is reported as verified, when the warning fires) over the real code with the handshake at an assumed contract + bounded complete case analysis of the settings lattice through the real code with a simulated handshake + the match_hostname dispatch proof.",
     level_note="Everything about real TLS is an assumption. Observation D12 (no InsecureRequestWarning for an unverified origin inside a tunnel whose proxy was verified by fingerprint) is not covered by the lattice and not claimed either way.",
-    technique="bounded exhaustive case analysis of the TLS settings lattice through the real code (simulated handshake) + contract proof of match_hostname's dispatch",
+    technique="contract-based deductive verification (pre/postconditions with ghost peer oracles on _ssl_wrap_socket_and_match_hostname, HTTPSConnection.connect, HTTPSConnectionPool._validate_conn, match_hostname; z3) + bounded exhaustive case analysis of the TLS settings lattice through the real code (simulated handshake)",
 )
 PROPS["C09"] = dict(
     contracts=["stdlib", "util_timeout", "util_retry", "util_url", "connectionpool", "poolmanager_urlopen"], bounded=["c09"], level="other", trusted_base=COMMON_TRUSTED, assumptions=_TLS_ASSUME + _BOUNDARY,
